@@ -77,7 +77,7 @@ def _new_recipe(rng, known_shapes):
         "dir": {"dir0": rng.choice([0.0, 0.0, 5.0]), "order": rng.choice(["asc", "asc", "asc", "desc", "rot", "shuf"]), "shift": 1, "seed": rng.randrange(100),
                 "north360": rng.random() < 0.06},
         "dtype": rng.choice(["float64", "float64", "float64", "float32"]),
-        "data": {"kind": rng.choice(["int_bumps", "int_bumps", "peaked", "random"]), "seed": rng.randrange(10**6),
+        "data": {"kind": rng.choice(["int_bumps", "int_bumps", "int_multi", "peaked", "random"]), "seed": rng.randrange(10**6),
                  "zero_at": rng.choice([-1, -1, -1, 0, 1]), "nan_at": -1},
         "spec_last": rng.random() < 0.85,
         "dir_first": rng.random() < 0.1,
@@ -629,6 +629,21 @@ def do_read(fmt, path):
     raise ValueError(fmt)
 
 
+# -- greybox probe: module-level mutable state of the library -------------------------------
+from simkit.probe import global_state  # noqa: E402
+
+
+BATTERY_RECIPES = [
+    {"dims": [["time", 2]], "nf": 6, "nd": 0, "data": {"kind": "peaked", "seed": 11}},
+    {"dims": [["time", 2], ["site", 2]], "nf": 6, "nd": 8, "data": {"kind": "int_bumps", "seed": 12}},
+]
+BATTERY_1D = [{"m": "hs", "via": "ds"}, {"m": "split", "via": "da", "kw": {"fmin": 0.05}}, {"m": "stats", "via": "ds", "stats": ["hs", "tp"], "kw": {"fmax": 0.09}},
+              {"m": "tm02", "via": "da"}]
+BATTERY_2D = BATTERY_1D + [{"m": "split", "via": "da", "kw": {"dmin": 45.0, "dmax": 200.0}}, {"m": "smooth", "via": "da", "kw": {}},
+                           {"m": "ptm3", "via": "ds", "kw": {"parts": 2}}, {"m": "dpm", "via": "ds"}, {"m": "crsd", "via": "da"},
+                           {"m": "sel", "via": "ds", "lons": [151.0, 151.0], "lats": [-29.0, -29.0], "kw": {"method": "nearest", "tolerance": 50.0}}]
+
+
 # -- reference side ----------------------------------------------------------------------
 def ref_handler(req):
     """Runs in a grandchild of the pristine reference server: one call, once."""
@@ -698,6 +713,8 @@ def execute(arg):
     prop = arg.get("prop", "C18")
     plan = arg["plan"]
     sim = Sim(arg["run_seed"], tape=arg.get("tape"), strict=arg.get("strict", False))
+    if arg.get("plan_retries"):
+        sim.count("plan_generation_retries", arg["plan_retries"])
     server = refproc.RefServer(ref_handler) if prop == "C18" else None   # forked while pristine
     install_seams(arg["run_seed"])
     repo = build.repo_root()
@@ -710,6 +727,37 @@ def execute(arg):
     store = ArgStore()
     acked = {}
     state_changes = 0
+    gstate = global_state() if prop == "C18" else None
+
+    def battery(i, what):
+        """Extra observations after the library's module-level state was seen to change."""
+        sim.count("battery_runs")
+        targets = [(D.make_dataset(r), None, BATTERY_2D if r["nd"] else BATTERY_1D) for r in BATTERY_RECIPES]
+        for sid2, sl2 in sorted(slots.items()):
+            if sl2.kind in ("ds", "da") and sl2.backing != "dask":
+                has_dir = "dir" in (sl2.obj.dims if sl2.kind == "da" else sl2.obj["efth"].dims)
+                targets.append((sl2.obj, sl2.aux, [c for c in (BATTERY_2D if has_dir else BATTERY_1D) if c["m"] not in ("sel", "ptm3") and not (sl2.kind == "da" and c.get("via") == "ds")]))
+        for obj, aux, calls in targets:
+            for call in calls:
+                try:
+                    mine, raised = cmp.canon(O.apply_op(obj, call, aux=aux)), None
+                except Exception as exc:
+                    mine, raised = None, type(exc).__name__
+                rep = server.call({"kind": "call", "call": call, "obj": F.freeze(obj), "aux": F.freeze(aux) if aux is not None else None})
+                sim.count("battery_calls")
+                if "harness" in rep:
+                    raise RuntimeError("reference process failed: " + rep["harness"])
+                lab2 = call["m"]
+                if raised is not None or "raised" in rep:
+                    if raised != rep.get("raised"):
+                        add("C18", "fresh", lab2, f"after:global-state:{what}", "exception",
+                            f"{lab2} {('raises ' + raised) if raised else 'returns'} after module-level state {what} changed, but in a pristine process it "
+                            f"{('raises ' + rep['raised'] + ': ' + rep.get('msg', '')) if 'raised' in rep else 'returns'}", i)
+                else:
+                    d = cmp.compare(rep["ok"], mine, rtol=None)
+                    if d:
+                        add("C18", "fresh", lab2, f"after:global-state:{what}", d[0],
+                            f"{lab2} after module-level state {what} changed differs from a pristine process: {d[1]}", i)
 
     def add(p, oracle, op, cause, cls, detail, step_i):
         viol.append({"property": p, "signature": f"{p}/{oracle}/{op}/{cause}/{cls}", "step": step_i,
@@ -914,6 +962,14 @@ def execute(arg):
                     sim.count("agree_checks")
             if op in ("call", "native", "reader"):
                 state_changes += 1
+            if gstate is not None:
+                now = global_state()
+                if now != gstate:
+                    changed = sorted(k for k in set(now) | set(gstate) if now.get(k) != gstate.get(k))
+                    sim.count("global_state_changes")
+                    sim.event("global-state-changed", lab, ",".join(changed)[:200])
+                    gstate = now
+                    battery(i, changed[0].split("wavespectra.", 1)[-1])
     finally:
         fs.cleanup()
         if server is not None:
@@ -1075,7 +1131,7 @@ ASSUMPTIONS = [
     "bit-exact comparison between a long-lived process and a pristine fork assumes allocation history does not perturb numpy/scipy results (checked by probe, DESIGN 4.2)",
     "pre-emption granularity: Python lines inside wavespectra files and explicit yield points in specpart.c; dependencies run atomically under the baton",
 ]
-PROBES_C18 = ["observed_after_history", "reference_calls", "edits", "native_calls", "agree_checks", "reader_calls"]
+PROBES_C18 = ["observed_after_history", "reference_calls", "edits", "native_calls", "agree_checks", "reader_calls"]  # battery_runs stays 0 on a tree without module-level state changes
 PROBES_C17 = ["situation.returned", "situation.raised", "situation.deferred", "writes_aborted_by_fault", "writes_acked", "reader_calls", "fault.duplicate"]
 
 
